@@ -1,6 +1,7 @@
 package main
 
 import (
+	"regexp"
 	"flag"
 	"fmt"
 	"os"
@@ -150,6 +151,17 @@ func main() {
 			fr.Err = res.err.Error()
 			continue
 		}
+		// a postcondition labelled "Cnn.<name>" belongs to that property only
+		if *prop != "all" {
+			kept := res.obls[:0]
+			for _, o := range res.obls {
+				if m := propLabelRe.FindStringSubmatch(o.Name); m != nil && m[1] != *prop {
+					continue
+				}
+				kept = append(kept, o)
+			}
+			res.obls = kept
+		}
 		fr.Obls = res.obls
 		fr.Abstracted = res.abstracted
 		fr.Inlined = res.inlined
@@ -195,6 +207,8 @@ func main() {
 	}
 	os.Exit(code)
 }
+
+var propLabelRe = regexp.MustCompile(`/post:(C[0-9][0-9])\.`)
 
 func hasProp(ps []string, p string) bool {
 	for _, x := range ps {
